@@ -7,6 +7,9 @@
                                will_set_contents_of_output_parameter(pname, 8 bytes of 0x5a)       -> "<passes> <fails> <bitmap of changed buffers>"
      N <fid> <pname> <dbl 0|1> <v0> ..           clause on an ABSENT name, with will_return(77) or will_return_double(2.5);
                                                  the caller uses the result as documented (unbox_double for doubles) -> "<passes> <fails> <result>"
+     Q <id 0|1> <kind 0 when|1 capture|2 output> <expected> <v0> <v1>   the two generated functions whose named
+                                                 parameter is an object-like macro, clauses through the public macros
+                                                 -> "<passes> <fails> <captured | first byte of the named buffer>"
      T <hex text>                                create_vector_of_names / create_vector_of_double_markers_for -> "T n1|n2|.. m1m2.."
    v_i are decimal integers; a double parameter receives (double)v_i. */
 #include "params_tu.inc"
@@ -36,6 +39,20 @@ int main(void) {
         passes = fails = 0;
         clear_mocks();
         char k = tok[0][0];
+        if (k == 'Q' && nt >= 6) {
+            int id = atoi(tok[1]), kind = atoi(tok[2]);
+            static unsigned char qb[2][8];
+            memset(qb, 0x11, sizeof qb);
+            intptr_t a = (intptr_t)atoll(tok[4]), b = (intptr_t)atoll(tok[5]);
+            if (kind == 2) { a = (intptr_t)qb[0]; b = (intptr_t)qb[1]; }
+            mq_expect(id, kind, (intptr_t)atoll(tok[3]));
+            (void)mq_call(id, a, b);
+            if (kind == 1) printf("%d %d %" PRIdPTR "\n", passes, fails, mq_captured);
+            else if (kind == 2) printf("%d %d %d\n", passes, fails, (qb[0][0] != 0x11 ? 1 : 0) | (qb[1][0] != 0x11 ? 2 : 0));
+            else printf("%d %d 0\n", passes, fails);
+            fflush(stdout);
+            continue;
+        }
         if (k == 'T') {
             size_t n = strcmp(tok[1], "e") ? strlen(tok[1]) / 2 : 0;
             char *s = malloc(n + 1);
